@@ -54,6 +54,15 @@ SumSeq(s, k) == IF k > Len(s) THEN 0 ELSE s[k] + SumSeq(s, k + 1)
 MaxAbs(s, k) == IF k > Len(s) THEN 0 ELSE LET r == MaxAbs(s, k + 1) IN IF Abs(s[k]) > r THEN Abs(s[k]) ELSE r
 Dot(x, y, k) == IF k > Len(x) THEN 0 ELSE x[k] * y[k] + Dot(x, y, k + 1)
 
+\* a second interpretation of the user function symbols ("for all interpretations" is sampled by two)
+ApplyAlt(f, args, kw) ==
+    CASE f = "<func>f" ->
+            IF Len(args) = 1 /\ IsI(args[1]) /\ IsI(KwGet(kw, "k", I(0))) /\ Abs(args[1][2]) <= 1000
+            THEN Clip(args[1][2] * args[1][2] - 3 * KwGet(kw, "k", I(0))[2] + 2) ELSE U
+      [] f = "<func>g" ->
+            IF Len(args) = 2 /\ AllInts(args) THEN Clip(5 * args[1][2] - 2 * args[2][2] + 7) ELSE U
+      [] OTHER -> U
+
 \* result of a call: a value, or a tuple of values <<"t", <<v1, v2>>>> for multi-result functions
 Apply(f, args, kw) ==
     CASE f = "<func>f" ->
@@ -85,6 +94,7 @@ Apply(f, args, kw) ==
             LET x == IF Len(args) = 1 THEN args[1] ELSE KwGet(kw, "x", U) IN
               IF IsA(x) /\ ElemsDefined(x[2]) THEN A([k \in DOMAIN x[2] |-> Abs(x[2][k])])
               ELSE IF IsI(x) THEN I(Abs(x[2])) ELSE U
+      [] f \in {"min", "max"} -> <<"e", "call of an unknown function">>   \* a Call node, not a Min/Max node
       [] OTHER -> U
 
 RECURSIVE Eval(_, _), EvalSeq(_, _, _), EvalKw(_, _, _), EvalAnd(_, _, _), EvalOr(_, _, _)
@@ -143,6 +153,25 @@ Eval(e, st) ==
             IF e[2][1] # "v" THEN U
             ELSE LET args == EvalSeq(e[3], st, 1)  kw == EvalKw(e[4], st, 1) IN
                    IF (\E k \in DOMAIN args : args[k] = U) \/ (\E k \in DOMAIN kw : kw[k][2] = U) THEN U
+                   ELSE IF "$F" \in DOMAIN st /\ e[2][2] \in {"<func>f", "<func>g"} THEN ApplyAlt(e[2][2], args, kw)
                    ELSE Apply(e[2][2], args, kw)
       [] OTHER -> U
+
+----------------------------------------------------------------------------
+\* substitution of expressions for variables: sigma is a sequence of <<name, expression>>
+Bound(sigma, v) == \E k \in DOMAIN sigma : sigma[k][1] = v
+Image(sigma, v) == sigma[CHOOSE k \in DOMAIN sigma : sigma[k][1] = v][2]
+RECURSIVE Subst(_, _), SubstSeq(_, _), SubstKw(_, _)
+SubstSeq(s, sigma) == [k \in DOMAIN s |-> Subst(s[k], sigma)]
+SubstKw(s, sigma)  == [k \in DOMAIN s |-> <<s[k][1], Subst(s[k][2], sigma)>>]
+Subst(e, sigma) ==
+    CASE e[1] = "v" -> IF Bound(sigma, e[2]) THEN Image(sigma, e[2]) ELSE e
+      [] e[1] \in {"c", "cb", "cx", "none", "s", "x"} -> e
+      [] e[1] \in {"sum", "prod", "and", "or", "min", "max", "tuple"} -> <<e[1], SubstSeq(e[2], sigma)>>
+      [] e[1] \in {"pow", "quot", "fdiv", "rem"} -> <<e[1], Subst(e[2], sigma), Subst(e[3], sigma)>>
+      [] e[1] = "cmp" -> <<"cmp", e[2], Subst(e[3], sigma), Subst(e[4], sigma)>>
+      [] e[1] = "not" -> <<"not", Subst(e[2], sigma)>>
+      [] e[1] = "if" -> <<"if", Subst(e[2], sigma), Subst(e[3], sigma), Subst(e[4], sigma)>>
+      [] e[1] = "sub" -> <<"sub", Subst(e[2], sigma), SubstSeq(e[3], sigma)>>
+      [] e[1] = "call" -> <<"call", Subst(e[2], sigma), SubstSeq(e[3], sigma), SubstKw(e[4], sigma)>>
 =============================================================================
